@@ -68,6 +68,16 @@ pub fn interp(label: u32, a: &[u64]) -> Vec<u64> {
     }
 }
 
+/// the reading of the signature used by C16 / C20: every binary gate is made non-commutative (second
+/// argument rotated first), so that swapped arguments change the value
+pub fn interp_nc(label: u32, a: &[u64]) -> Vec<u64> {
+    if a.len() == 2 && label < 100 && label != 9 {
+        interp(label, &[a[0], a[1].rotate_left(1) ^ 0x5555])
+    } else {
+        interp(label, a)
+    }
+}
+
 /// reference interpreter: memoised recursion over "who writes this node"
 pub fn reference(d: &Diagram, inputs: &[u64]) -> (Vec<u64>, Vec<(u32, Vec<u64>)>) {
     reference_with(d, inputs, &|e: &Edge, a: &[u64]| interp(e.label, a))
@@ -117,9 +127,9 @@ pub fn reference_with(d: &Diagram, inputs: &[u64], f: &dyn Fn(&Edge, &[u64]) -> 
 }
 
 pub fn eval_case(ctx: &mut Ctx, d: &Diagram, inputs: &[u64]) -> CheckResult {
-    let (want, mut want_apps) = reference(d, inputs);
+    let (want, mut want_apps) = reference_with(d, inputs, &|e: &Edge, a: &[u64]| interp_nc(e.label, a));
     ctx.sub("eval-value");
-    let (got, mut log) = sv::op_eval(d, inputs, &interp);
+    let (got, mut log) = sv::op_eval(d, inputs, &interp_nc);
     let Some(got) = got else {
         return Err(ctx.fail("eval-value", "eval returned None on an acyclic write-once diagram"));
     };
@@ -149,8 +159,8 @@ fn check(t: &mut Tape, ctx: &mut Ctx) -> CheckResult {
     let np = t.permutation(d.nodes.len());
     let ep = t.permutation(d.edges.len());
     let d2 = d.renumber(&np, &ep);
-    let (a, _) = sv::op_eval(&d, &inputs, &interp);
-    let (b, _) = sv::op_eval(&d2, &inputs, &interp);
+    let (a, _) = sv::op_eval(&d, &inputs, &interp_nc);
+    let (b, _) = sv::op_eval(&d2, &inputs, &interp_nc);
     ensure!(ctx, a == b, "eval-renumbering-invariant", "eval differs between two numberings of one diagram: {:?} vs {:?} (second numbering: {})", a, b, d2.pretty());
 
     // non-triviality: different depths + fan-out
@@ -228,7 +238,7 @@ fn fixed(ctx: &mut Ctx) -> CheckResult {
     // parallel dependency of multiplicity 3 (D1)
     let d = Diagram { nodes: vec![0; 3], edges: vec![e(8, &[0], &[1, 1]), e(10, &[1, 1, 1], &[2])], s: vec![0], t: vec![2] };
     ctx.set_dump(format!("fixed: {}", d.pretty()));
-    let (got, _) = sv::op_eval(&d, &[4], &interp);
+    let (got, _) = sv::op_eval(&d, &[4], &interp_nc);
     ensure!(ctx, got == Some(vec![12]), "eval-value", "fixed: eval = {:?} want [12]", got);
     Ok(())
 }
